@@ -88,7 +88,7 @@ func onErr(err error, res chan model.QueryRangeOutput) {
 //					onErr(e.Err, res)
 //					return
 //				}
-//				if lastFp != e.Fingerprint {
+//				if i == 0 || lastFp != e.Fingerprint {
 //					if i > 0 {
 //						res <- model.QueryRangeOutput{Str: "]},"}
 //					}
@@ -155,7 +155,7 @@ func (q *QueryRangeService) exportStreamsValue(out chan []shared.LogEntry,
 				onErr(e.Err, res)
 				return
 			}
-			if lastFp != e.Fingerprint {
+			if i == 0 || lastFp != e.Fingerprint {
 				if i > 0 {
 					// Close previous stream entry
 					stream.WriteArrayEnd()
@@ -602,7 +602,7 @@ func (q *QueryRangeService) Tail(ctx context.Context, query string) (model.IWatc
 						onErr(e.Err, res.GetRes())
 						return
 					}
-					if lastFp != e.Fingerprint {
+					if i == 0 || lastFp != e.Fingerprint {
 						if i > 0 {
 							stream.WriteArrayEnd()
 							stream.WriteObjectEnd()
